@@ -4,6 +4,7 @@ import (
 	gocontext "context"
 	"encoding/json"
 	"fmt"
+	"sort"
 	"strings"
 	"testing"
 	"time"
@@ -11,6 +12,7 @@ import (
 	"github.com/orda-io/orda/client/pkg/iface"
 	"github.com/orda-io/orda/client/pkg/model"
 	"github.com/orda-io/orda/client/pkg/operations"
+	"github.com/orda-io/orda/client/pkg/orda"
 	"github.com/orda-io/orda/server/schema"
 	"github.com/orda-io/orda/server/service"
 	"go.mongodb.org/mongo-driver/bson"
@@ -591,4 +593,108 @@ func TestC14Server(t *testing.T) {
 			return map[string]interface{}{"kind": kind, "pushed_operations": pushed, "bodies_over_512_bytes": bigBodies}
 		})
 	})
+}
+
+// TestC14IntegerBoundaries: every Go integer type (and pointer to it) at the boundaries of its range,
+// through every value-carrying entry point.
+func TestC14IntegerBoundaries(t *testing.T) {
+	col := stats.New("C14", t.Name(),
+		"EXHAUSTIVE: 20 Go integer types (int, int8..int64, uint, uint8..uint64 and pointers to them) x the boundaries of the type (min, min+1, -1, 0, 1, around half the range, max-1, max) x {Map.Put, List.Insert, List.Update, Document.PutToObject, Document.InsertToArray}; "+
+			"oracle: the issuing replica shows the number the Go value has (as float64, what JSON carries), the operation survives the five round trips of TestC14*, and a replica fed the emitted operations shows the same; non-trivial = every case; distinct = the case")
+	defer col.Flush()
+	type entry struct {
+		kind sim.Kind
+		pre  []sim.Call
+		call func(v sim.Val) sim.Call
+		read func(js interface{}) interface{}
+	}
+	at := func(path ...interface{}) func(interface{}) interface{} {
+		return func(js interface{}) interface{} {
+			cur := sim.Normalize(js)
+			for _, p := range path {
+				switch k := p.(type) {
+				case string:
+					m, _ := cur.(map[string]interface{})
+					cur = m[k]
+				case int:
+					l, _ := cur.([]interface{})
+					if k >= len(l) {
+						return nil
+					}
+					cur = l[k]
+				}
+			}
+			return cur
+		}
+	}
+	entries := map[string]entry{
+		"Map.Put":                {sim.Map, nil, func(v sim.Val) sim.Call { return sim.Call{M: "Put", Key: "k", Vals: []sim.Val{v}} }, at("k")},
+		"List.Insert":            {sim.List, nil, func(v sim.Val) sim.Call { return sim.Call{M: "Insert", Pos: 0, Vals: []sim.Val{v}} }, at("List", 0)},
+		"List.Update":            {sim.List, []sim.Call{{M: "Insert", Pos: 0, Vals: []sim.Val{sim.S("x")}}}, func(v sim.Val) sim.Call { return sim.Call{M: "Update", Pos: 0, Vals: []sim.Val{v}} }, at("List", 0)},
+		"Document.PutToObject":   {sim.Document, nil, func(v sim.Val) sim.Call { return sim.Call{M: "PutToObject", Key: "k", Vals: []sim.Val{v}} }, at("k")},
+		"Document.InsertToArray": {sim.Document, []sim.Call{{M: "PutToObject", Key: "arr", Vals: []sim.Val{sim.Arr()}}}, func(v sim.Val) sim.Call {
+			return sim.Call{M: "InsertToArray", Path: []sim.Step{sim.KStep("arr")}, Pos: 0, Vals: []sim.Val{v}}
+		}, at("arr", 0)},
+	}
+	names := make([]string, 0, len(entries))
+	for n := range entries {
+		names = append(names, n)
+	}
+	sort.Strings(names)
+	for _, name := range names {
+		e := entries[name]
+		var vals []sim.Val
+		for _, tag := range intTags {
+			for _, b := range intBoundaries(tag) {
+				vals = append(vals, sim.Val{T: tag, I: b})
+			}
+		}
+		for _, tag := range uintTags {
+			for _, b := range uintBoundaries(tag) {
+				vals = append(vals, sim.Val{T: tag, U: b})
+			}
+		}
+		for _, v := range vals {
+			sim.SeedIDs(14)
+			w := sim.NewWorld(e.kind, 1, 1)
+			for _, c := range e.pre {
+				w.Call(0, c)
+			}
+			call := e.call(v)
+			res, _ := w.Call(0, call)
+			fail := func(format string, a ...interface{}) {
+				j := &Journal{Property: "C14", Test: t.Name(), Header: map[string]interface{}{"entry": name, "value": v}}
+				col.Flush()
+				enumFail(t, "C14", j, "%s with %s: %s", name, call, fmt.Sprintf(format, a...))
+			}
+			if res.Panic != nil || res.Err != nil || res.NavErr != nil {
+				fail("the call failed: panic=%v err=%v nav=%v", res.Panic, res.Err, res.NavErr)
+			}
+			want := sim.Canon(v.JSON())
+			if got := sim.Canon(e.read(w.Reps[0].DT.(orda.Datatype).ToJSON())); got != want {
+				fail("the issuing replica shows %s, the value is %s", got, want)
+			}
+			ops := w.Reps[0].Emitted
+			for _, op := range ops {
+				rts, es := c14RoundTrips(op, e.kind)
+				if es != "" {
+					fail("%s seq %d: %s", op.OpType, op.ID.Seq, es)
+				}
+				for rn, r := range rts {
+					if d := opEquivalent(op, r); d != "" {
+						fail("%s seq %d after %s: %s", op.OpType, op.ID.Seq, rn, d)
+					}
+				}
+			}
+			_, dt := w.NewInstance("rx", true)
+			if _, err := dt.(iface.Datatype).ReceiveRemoteModelOperations(cloneOps(ops, 0), false); err != nil {
+				fail("a replica fed the emitted operations failed: %v", err)
+			}
+			if got := sim.Canon(e.read(dt.(orda.Datatype).ToJSON())); got != want {
+				fail("a replica fed the emitted operations shows %s, the value is %s", got, want)
+			}
+			col.Case(true, name+"/"+v.T+"/"+want, []string{"entry=" + name, "type=" + v.T}, func() interface{} { return map[string]interface{}{"entry": name, "type": v.T, "value": want} })
+		}
+	}
+	col.SetExhaustive(true)
 }
